@@ -131,13 +131,15 @@ func appendRule(pk ...string) func(c *Ctx) { return func(c *Ctx) { AppendClobber
 
 func nilEmpty(pk ...string) func(c *Ctx) { return func(c *Ctx) { NilEmpty(c, "default", pk) } }
 
+func lazyCap(pk ...string) func(c *Ctx) { return func(c *Ctx) { LazyCapture(c, "default", pk) } }
+
 func shiftRule(pk ...string) func(c *Ctx) { return func(c *Ctx) { ShiftWidth(c, "default", pk) } }
 
 func loopShare(pk ...string) func(c *Ctx) { return func(c *Ctx) { LoopShare(c, "default", pk) } }
 
 func init() {
 	stale := func(pk ...string) func(c *Ctx) { return func(c *Ctx) { StaleResults(c, "default", pk) } }
-	extraRules["C15"] = both(appendRule("shuffle", "proof"), stale("shuffle", "proof"), loopShare("shuffle"), func(c *Ctx) { CheckMustWrite(c, "C15") }, fresh("shuffle."), roTargetsForShuffle)
+	extraRules["C15"] = both(lazyCap("shuffle", "proof"), appendRule("shuffle", "proof"), stale("shuffle", "proof"), loopShare("shuffle"), func(c *Ctx) { CheckMustWrite(c, "C15") }, fresh("shuffle."), roTargetsForShuffle)
 	roTargetsFor := func(names ...string) func(c *Ctx) {
 		return func(c *Ctx) {
 			p := c.Prog("default")
@@ -166,8 +168,8 @@ func init() {
 			CheckFlow(c, prop, specs, reads)
 		}
 	}
-	extraRules["C14"] = both(appendRule("proof"), stale("proof"), loopShare("proof"), flowOf("C14"), func(c *Ctx) { CheckMustWrite(c, "C14") })
-	extraRules["C13"] = both(appendRule("share/pvss", "proof/dleq", "share"), func(c *Ctx) { CheckMustWrite(c, "C13") }, stale("share/pvss", "proof/dleq"), roTargetsFor("share/pvss.", "proof/dleq."), loopShare("share/pvss", "proof/dleq"),
+	extraRules["C14"] = both(lazyCap("proof"), appendRule("proof"), stale("proof"), loopShare("proof"), flowOf("C14"), func(c *Ctx) { CheckMustWrite(c, "C14") })
+	extraRules["C13"] = both(lazyCap("share/pvss", "proof/dleq"), appendRule("share/pvss", "proof/dleq", "share"), func(c *Ctx) { CheckMustWrite(c, "C13") }, stale("share/pvss", "proof/dleq"), roTargetsFor("share/pvss.", "proof/dleq."), loopShare("share/pvss", "proof/dleq"),
 		func(c *Ctx) { AccGate(c, "default", "C13") })
 	extraRules["C06"] = both(roTargetsFor(").Pair", ").ValidatePairing"), func(c *Ctx) { SiblingSkeletonCheck(c, "default") }, flowOf("C06"))
 	extraRules["__ro_c08"] = roTargetsFor("sign/eddsa.", "sign/schnorr.", "sign/anon.Verify", "sign/anon.Sign")
@@ -192,7 +194,7 @@ func init() {
 		}
 	})
 	extraRules["C17"] = both(nilEmpty("group", "pairing"), entropyRule("C17"), shiftRule("group", "pairing"))
-	extraRules["C19"] = both(nilEmpty("xof", "util/random"), shiftRule("xof", "util/random"), appendRule("xof", "util/random"), entropyRule("C19"), func(c *Ctx) { CheckMustWrite(c, "C19") }, func(c *Ctx) {
+	extraRules["C19"] = both(lazyCap("xof", "util/random"), nilEmpty("xof", "util/random"), shiftRule("xof", "util/random"), appendRule("xof", "util/random"), entropyRule("C19"), func(c *Ctx) { CheckMustWrite(c, "C19") }, func(c *Ctx) {
 		// XOF clones share no mutable state with their original (EFX-INDEP) and Clone writes nothing
 		p := c.Prog("default")
 		if p == nil {
@@ -232,6 +234,7 @@ func init() {
 		stale("sign/bls", "sign/tbls", "sign/bdn", "sign/cosi")(c)
 		appendRule("sign/bls", "sign/tbls", "sign/bdn", "sign/cosi", "share")(c)
 		nilEmpty("sign/bls", "sign/tbls", "sign/bdn", "sign/cosi")(c)
+		lazyCap("sign/bls", "sign/tbls", "sign/bdn", "sign/cosi")(c)
 		PairedUpdates(c, "default")
 		CheckMustWrite(c, "C09")
 		AccGate(c, "default", "C09")
@@ -254,6 +257,7 @@ func init() {
 		CheckMustWrite(c, "C10")
 		LoopShare(c, "default", []string{"share/vss/pedersen", "share/vss/rabin"})
 		appendRule("share/vss", "internal")(c)
+		lazyCap("share/vss")(c)
 		fresh("share/vss/")(c)
 	}
 	extraRules["C11"] = func(c *Ctx) {
@@ -261,6 +265,7 @@ func init() {
 		CheckMustWrite(c, "C11")
 		LoopShare(c, "default", []string{"share/dkg/pedersen", "share/dkg/rabin"})
 		appendRule("share/dkg", "share/vss/rabin")(c)
+		lazyCap("share/dkg")(c)
 	}
 	extraRules["C12"] = func(c *Ctx) { appendRule("sign/dss")(c); WriterDiscipline(c, "default", "C12"); CheckMustWrite(c, "C12"); AccGate(c, "default", "C12") }
 }
